@@ -1,11 +1,14 @@
 #!/bin/bash
-# Run once after a fresh restore, offline: builds the native replay binary and warms the Kani
-# dependency build of one shard directory. Every check rebuilds what it needs anyway.
+# Run once after a fresh restore, offline. Builds the template generator and runs it (real lex + parse of
+# /repo on templates.txt -> harness/src/generated), then builds the native replay binary (dev + release).
+# Every check regenerates and rebuilds what it needs from /repo's working tree anyway.
 set -u
 cd "$(dirname "$0")"
 export CARGO_NET_OFFLINE=true
-mkdir -p .build evidence replays
+mkdir -p .build evidence replays harness/src/generated
 cp -f /repo/Cargo.lock harness/Cargo.lock 2>/dev/null || true
+cp -f /repo/Cargo.lock gen/Cargo.lock 2>/dev/null || true
+( cd gen && CARGO_TARGET_DIR=../.build/gen cargo run --offline --quiet -- ../templates.txt ../harness/src/generated ) || echo "setup: template generation failed"
 ( cd harness && CARGO_TARGET_DIR=../.build/native cargo build --offline --bin replay 2>&1 | tail -2 )
 ( cd harness && CARGO_TARGET_DIR=../.build/native cargo build --offline --release --bin replay 2>&1 | tail -2 )
 exit 0
